@@ -28,6 +28,8 @@ RULES = {
               "self._bnd_mode; the circle places vertex i of n = len(boundary_vertices) at angle 2*pi*i/n, i in range(n), U from the real and V from the imaginary part",
     "C17-W1": "border order follows border edges: extract_border_cycle leaves the start through the head of the sorted neighbour list and scans "
               "forward with first match (or tail / backward); the sorting contract puts the corner-less border neighbour first",
+    "C17-L1": "operators.laplacian uses cotangent weights exactly when its `cotan` argument is true and the uniform weights otherwise, whatever "
+              "attributes happen to be cached on the mesh (a cached 'cotan' attribute may only be reused when cotan weights are requested)",
     "C17-H1": "interior coordinates solve L[free,free] x = -L[free,border] x_border, with free = interior vertices, the border index list that "
               "orders x_border, and the scalar Laplacian (no connection)",
     "C17-S1": "the per-corner and the per-vertex branch store (U[i], V[i]) over enumerate(free) and (Ubnd[i], Vbnd[i]) over enumerate(border), "
@@ -43,6 +45,7 @@ def run(ctx):
     h1_system(ctx, facts)
     s1_siblings(ctx, facts)
     w1_border_walk(ctx)
+    l1_weights(ctx)
 
 
 # ------------------------------------------------------------------ facts about run()
@@ -660,3 +663,93 @@ def w1_border_walk(ctx):
     fn = ctx.repo.func(BORD, "extract_border_cycle")
     H.check_walk_orientation(ctx, "C17-W1", BORD, fn)
     H.check_sort_contract(ctx, "C17-W1")
+
+
+# ------------------------------------------------------------------ C17-L1
+LAPM = "operators.laplacian_op"
+
+
+def l1_weights(ctx):
+    fn = ctx.repo.func(LAPM, "laplacian")
+    site = ctx.site(LAPM, fn)
+    ps = au.params(fn)
+    if "cotan" not in ps:
+        ctx.fail("C17-L1", site, "laplacian: parameter `cotan` not found", "uniform weights must remain selectable")
+        return
+    # the cotangent container: names assigned from cotangent(...) / get_attribute("cotan")
+    def is_cot_source(v):
+        return isinstance(v, ast.Call) and (au.call_tail(v) == "cotangent" or
+                                            (au.call_tail(v) == "get_attribute" and v.args and au.const(v.args[0]) == "cotan"))
+    cot_names = {n for st in au.stmts(fn.body) if isinstance(st, ast.Assign) and is_cot_source(st.value)
+                 for t in st.targets for n in au.assigned_names(t)}
+    if len(cot_names) != 1:
+        ctx.fail("C17-L1", site, "laplacian: container of the cotangent weights not found", f"candidates {sorted(cot_names)}")
+        return
+    cot = cot_names.pop()
+    assigns = [st for st in au.stmts(fn.body) if isinstance(st, ast.Assign) and any(H.is_name(t, cot) for t in st.targets)]
+
+    def atom(x, boolean):
+        if H.is_name(x, "cotan") and boolean:
+            return H.name("cotan")
+        if isinstance(x, ast.Call) and au.call_tail(x) == "has_attribute" and x.args and au.const(x.args[0]) == "cotan":
+            return H.name("cached")
+        if isinstance(x, ast.Compare) and len(x.ops) == 1 and H.is_name(x.left, cot) and isinstance(x.comparators[0], ast.Constant) \
+                and x.comparators[0].value is None and isinstance(x.ops[0], (ast.Is, ast.IsNot)):
+            nn = nonnull_formula()
+            return nn if isinstance(x.ops[0], ast.IsNot) else ast.UnaryOp(op=ast.Not(), operand=nn)
+        return None
+
+    def pc(node):
+        ab = H.Abstractor(atom)
+        code = ab.boolean(H.conj([(t, p) for t, p, _ in H.path_condition(node, stop=fn)]))
+        return code, ab.unknown
+
+    _nn = []
+
+    def nonnull_formula():
+        """`cot is not None` after the (loop-free) prefix: fold of the assignments in source order"""
+        if _nn:
+            return _nn[0]
+        state = ast.Constant(value=False)
+        for st in assigns:
+            if H.loop_ancestors(st, stop=fn):
+                continue
+            code, unk = pc(st)
+            nonnull = not (isinstance(st.value, ast.Constant) and st.value.value is None)
+            a = ast.BoolOp(op=ast.And(), values=[code, ast.Constant(value=nonnull)])
+            bb = ast.BoolOp(op=ast.And(), values=[ast.UnaryOp(op=ast.Not(), operand=code), state])
+            state = ast.BoolOp(op=ast.Or(), values=[a, bb])
+        _nn.append(state)
+        return state
+
+    # uses of the cotangent values in the assembly: cot[...] reads inside loops
+    uses = [n for n in au.walk(fn) if isinstance(n, ast.Subscript) and H.is_name(n.value, cot) and isinstance(n.ctx, ast.Load)]
+    stmts = []
+    for u in uses:
+        st = au.enclosing_stmt(u)
+        if all(st is not x for x in stmts):
+            stmts.append(st)
+    if not stmts:
+        ctx.fail("C17-L1", site, "laplacian: no read of the cotangent weights in the assembly", "cotangent weights must be used when requested")
+        return
+    for st in stmts:
+        code, unk = pc(st)
+        # expression-level guards (cot[...] if cotan else 0.5)
+        try:
+            wit, n = (H.compare(code, "cotan") if not unk else ({"unrecognised": unk}, 0))
+        except order.Unsupported as ex:
+            wit, n = {"unsupported": str(ex)}, 0
+        ctx.check(wit is None, "C17-L1", ctx.site(LAPM, fn, st),
+                  "laplacian: the cotangent weights are not used exactly when `cotan` is true",
+                  f"condition of `{au.src(st)[:80]}` is `{au.src(code)}`; differs from `cotan` for {H.fmt_env(wit) if isinstance(wit, dict) else wit} "
+                  "(cached = the mesh already carries a 'cotan' attribute): TutteEmbedding(use_cotan=False) must use uniform weights, "
+                  "which are the ones for which the embedding is always fold-free",
+                  note=f"cot[...] read iff cotan ({n} assignments)")
+    # the cotangent container is built whenever cotan is requested
+    code_nn = nonnull_formula()
+    try:
+        wit, n = H.compare(ast.BoolOp(op=ast.Or(), values=[ast.UnaryOp(op=ast.Not(), operand=H.name("cotan")), code_nn]), "True")
+    except order.Unsupported as ex:
+        wit, n = {"unsupported": str(ex)}, 0
+    ctx.check(wit is None, "C17-L1", site, "laplacian: the cotangent container may be unset although `cotan` is true",
+              f"for {H.fmt_env(wit) if isinstance(wit, dict) else wit}", note="cot built whenever cotan is requested")
